@@ -9,6 +9,7 @@
 #include "c04.hpp"
 #include "c05.hpp"
 #include "c06.hpp"
+#include "c09.hpp"
 #include "c13.hpp"
 #include "c15.hpp"
 #include "c16.hpp"
